@@ -361,11 +361,26 @@ def dominating_guards(mod, node, stop=None):
     guards = []
     child = node
     n = mod.parent.get(node)
-    while n is not None and n is not stop:
-        if isinstance(n, (ast.FunctionDef, ast.AsyncFunctionDef, ast.Lambda, ast.ClassDef)):
+
+    def siblings(n, child):
+        # earlier siblings in any statement list containing child
+        for field in ("body", "orelse", "finalbody"):
+            lst = getattr(n, field, None)
+            if isinstance(lst, list) and child in lst:
+                for prev in lst[: lst.index(child)]:
+                    if isinstance(prev, ast.If) and terminates(prev.body) and not prev.orelse:
+                        guards.append((prev.test, False))
+                    elif isinstance(prev, ast.If) and prev.orelse and terminates(prev.orelse) and not terminates(prev.body):
+                        guards.append((prev.test, True))
+                    elif isinstance(prev, ast.If) and prev.orelse and terminates(prev.body) and not terminates(prev.orelse):
+                        guards.append((prev.test, False))
+                    elif isinstance(prev, ast.Assert):
+                        guards.append((prev.test, True))
+
+    while n is not None:
+        if isinstance(n, (ast.FunctionDef, ast.AsyncFunctionDef, ast.Lambda, ast.ClassDef)) or n is stop:
             # statements before the def do not dominate the body's execution time
-            if isinstance(n, ast.Lambda):
-                pass
+            siblings(n, child)
             break
         if isinstance(n, ast.If) or isinstance(n, ast.While):
             if child in n.body:
@@ -391,19 +406,7 @@ def dominating_guards(mod, node, stop=None):
             if child in n.ifs:
                 for c in n.ifs[: n.ifs.index(child)]:
                     guards.append((c, True))
-        # earlier siblings in any statement list containing child
-        for field in ("body", "orelse", "finalbody"):
-            lst = getattr(n, field, None)
-            if isinstance(lst, list) and child in lst:
-                for prev in lst[: lst.index(child)]:
-                    if isinstance(prev, ast.If) and terminates(prev.body) and not prev.orelse:
-                        guards.append((prev.test, False))
-                    elif isinstance(prev, ast.If) and prev.orelse and terminates(prev.orelse) and not terminates(prev.body):
-                        guards.append((prev.test, True))
-                    elif isinstance(prev, ast.Assert):
-                        guards.append((prev.test, True))
-        if isinstance(n, ast.ExceptHandler):
-            pass
+        siblings(n, child)
         child = n
         n = mod.parent.get(n)
     # flatten: (a and b, True) -> a, b ; (a or b, False) -> not a, not b ; not x
